@@ -550,7 +550,7 @@ func OidFromString(s string) (asn1.ObjectIdentifier, error) {
 	}
 
 	//the first two arcs are encoded as one number (40*first + second), which must fit as well
-	if len(oid) >= 2 && oid[0] >= 0 && oid[0] <= 2 && oid[1] > math.MaxInt-40*oid[0] {
+	if len(oid) >= 2 && oid[0] >= 0 && oid[0] <= 2 && oid[1] > math.MaxInt32-40*oid[0] {
 		return nil, fmt.Errorf("cert: the first two arcs of oid '%v' are too large to be encoded", s)
 	}
 
